@@ -4,6 +4,7 @@ import (
 	"encoding/json"
 	"os"
 	"path/filepath"
+	"regexp"
 	"strings"
 	"testing"
 
@@ -35,6 +36,49 @@ const knownMissing = `{"layout":{"root":"","data":2,"parity":1,"hashmod":2},"ste
  {"kind":"repair","keep_old":false},
  {"kind":"reinstate"},
  {"kind":"check","note":"final"}]}`
+
+// Finding: ReinstateFailedDrives switches commit logging on, copies the stores to the passive folders and then replays
+// ("fast-forwards") the logged commits onto the copy. The replay is not idempotent: a logged commit whose registry
+// changes the copy already contains (it was committed before the files were copied - after an earlier reinstate attempt
+// that failed and left logging on, or while the copy was running) makes registryMap.remove fail with "can't delete a
+// missing item", or registryMap.add spin for its 3 minute lock window and fail: the reinstate returns an error, and
+// again on every further attempt (the log files stay).
+const slugFastForward = "fast-forward-replays-changes-the-copy-already-has"
+
+const knownFastForward = `{"layout":{"root":"","data":2,"parity":1,"hashmod":2},"steps":[
+ {"kind":"create","store":"s0","opt":{"slot":2,"in_node":true},"txn":[{"store":"s0","ops":[{"k":"add","key":0},{"k":"add","key":1},{"k":"add","key":2},{"k":"add","key":3},{"k":"add","key":4},{"k":"add","key":5},{"k":"add","key":6},{"k":"add","key":7}]}]},
+ {"kind":"sabotage","store":"s0","sab":"infodir"},
+ {"kind":"txn","txn":[{"store":"s0","ops":[{"k":"add","key":9}]}],"note":"first commit after the sabotage"},
+ {"kind":"reinstate-early"},
+ {"kind":"restart"},
+ {"kind":"txn","txn":[{"store":"s0","ops":[{"k":"rem","key":2},{"k":"rem","key":3},{"k":"rem","key":4},{"k":"rem","key":5},{"k":"rem","key":6},{"k":"rem","key":7}]}],"note":"logged"},
+ {"kind":"repair","keep_old":true},
+ {"kind":"reinstate"},
+ {"kind":"check","note":"final"}]}`
+
+// TestC27_Known_FastForwardNotIdempotent replays the history without rapid (the variant whose logged commit ADDS nodes
+// fails the same way after spinning for 3 minutes; it is not replayed here).
+func TestC27_Known_FastForwardNotIdempotent(t *testing.T) {
+	if !stats.Known("C27", slugFastForward) {
+		t.Skip("not listed")
+	}
+	var sc script
+	if err := json.Unmarshal([]byte(knownFastForward), &sc); err != nil {
+		t.Fatalf("HARNESS-ERROR: %v", err)
+	}
+	msg := runScript(t, sc, true)
+	if msg == "" {
+		return // repaired
+	}
+	if !strings.Contains(msg, "can't delete a missing item") {
+		t.Fatalf("the known history fails differently than recorded: %s", msg)
+	}
+	if i := strings.Index(msg, "\nscript:"); i > 0 {
+		msg = msg[:i]
+	}
+	msg = regexp.MustCompile(`offset=\d+`).ReplaceAllString(msg, "offset=N")
+	stats.For("C27").KnownFinding("a commit logged after a failed reinstate attempt removes nodes; the reinstate after the repair: " + msg)
+}
 
 // TestC27_Known_ReinstateStoreInfoFromPassive replays both histories without rapid. Listed:
 // prints KNOWN-FINDING while they still fail and passes silently once they do not.
